@@ -14,7 +14,7 @@ CASES = {}
 
 class Case:
     def __init__(self, name, builder, n, shapes=sx.SHAPES_BASIC, kind="proved", ctxkw=None, fn=None,
-                 expect_error=None, tok_kw=None, pre=None, expand=None, scope=None):
+                 expect_error=None, tok_kw=None, pre=None, expand=None, scope=None, wrap=True):
         self.name, self.builder, self.n, self.shapes, self.kind = name, builder, n, shapes, kind
         self.ctxkw = ctxkw or {}
         self.fn = fn
@@ -22,6 +22,7 @@ class Case:
         self.tok_kw = tok_kw or {}
         self.expand = expand
         self.scope = scope
+        self.wrap = wrap
         CASES[name] = self
 
 
@@ -54,7 +55,34 @@ def _work(task):
             wit = {"decisions": sorted((repr(k), v) for k, v in m.decisions.items()),
                    "emitted": sx.show(out.result), "got": repr(m.got), "want": repr(m.want)}
             return (name, sv, "mismatch", m.describe(), n, time.time() - t0, wit)
-        return (name, sv, "ok", None, n, time.time() - t0, dict(equiv.LAST))
+        info = dict(equiv.LAST)
+        # Output contract on Result.temp_variables: if the rule hands out result temporaries, renaming them to a user
+        # variable (what compile_assign does for `(setv x FORM)` / `(setx x FORM)`) must preserve the meaning.
+        if out.result.temp_variables and case.wrap:
+            for w in ("setv", "setx"):
+                toks2 = sx.tokens(sv, **case.tok_kw)
+                inner = case.builder(*toks2)
+                wform = sx.E(sx.S(w), sx.S("hv_x"), inner)
+                o2 = sx.run_rule(wform, scope_ctx=case.scope)
+                if not o2.ok:
+                    continue
+                n2, bad2 = equiv.compare(o2.result, wform, expand=case.expand, **case.ctxkw)
+                n += n2
+                if bad2:
+                    # intermediate / early stores into the assignment target are a recorded finding of their own
+                    # (obligation rename/no-early-store/...); the contract proper is checked modulo them
+                    n3, bad3 = equiv.compare(o2.result, wform, expand=case.expand, ignore_store="hv_x", **case.ctxkw)
+                    if not bad3:
+                        info["early_store"] = sx.show(o2.result)
+                        bad2 = None
+                if bad2:
+                    m = bad2[0]
+                    wit = {"decisions": sorted((repr(k), v) for k, v in m.decisions.items()), "wrap": w,
+                           "emitted": sx.show(o2.result), "got": repr(m.got), "want": repr(m.want)}
+                    return (name, sv, "mismatch", f"Result.temp_variables contract: ({w} hv_x FORM) renames the rule's "
+                            "result temporaries and changes the meaning\n" + m.describe(), n, time.time() - t0, wit)
+            info["wrapped"] = True
+        return (name, sv, "ok", None, n, time.time() - t0, info)
     except Exception:  # noqa: BLE001
         return (name, sv, "checker-error", traceback.format_exc()[-1500:], 0, time.time() - t0, None)
 
@@ -69,6 +97,7 @@ def run_cases(chk, names, prefix="equiv", replay_fn=None):
     else:
         results = [_work(t) for t in tasks]
     paths = 0
+    early = {}
     for name, sv, status, detail, n, dt, wit in results:
         case = CASES[name]
         oname = f"{prefix}/{name}/shapes={','.join(sv)}"
@@ -82,6 +111,11 @@ def run_cases(chk, names, prefix="equiv", replay_fn=None):
                 kind = "arity_bounded"
                 chk.bounds.setdefault("loop iterations (unstable head store)", []).append(oname)
             chk.ob(oname, True, "enum-euf", kind, t=dt)
+            if wit and wit.get("wrapped"):
+                agg = early.setdefault(name, [0, None, kind])
+                if "early_store" in wit and agg[1] is None:
+                    agg[1] = f"shapes={','.join(sv)}\n{wit.get('early_store')}"
+                agg[0] += 1
         elif status == "hy-error":
             if case.expect_error and case.expect_error(sv):
                 chk.ob(oname, True, "structural", case.kind, detail="rejected with a Hy error as specified", t=dt)
@@ -103,5 +137,9 @@ def run_cases(chk, names, prefix="equiv", replay_fn=None):
             chk.ob(oname, None, "enum-euf", case.kind, detail="outside pysem/hysem subset: " + detail, t=dt)
         else:
             raise RuntimeError(f"checker error in {oname}:\n{detail}")
+    for name, (cnt, ex_, kind) in sorted(early.items()):
+        chk.ob(f"rename/no-early-store/{name}", ex_ is None, "enum-euf", kind,
+               detail=None if ex_ is None else "(setv x FORM): the rule's result temporary is renamed to x, so x is assigned "
+               "while FORM is still being evaluated; first shape vector: " + ex_)
     chk.extra["paths_explored"] = chk.extra.get("paths_explored", 0) + paths
     return results
